@@ -13,7 +13,8 @@
 //! cycle at a path of any kind (missing / file / directory / no parent directory / /dev/full) in each write
 //! mode, with write failures and close; Y a Combined policy from build to close (build failures, failing
 //! members, `ResponseSink::None`); A / A0 `CompassApp::run` (policies from the run configuration or from the
-//! application's TOML, no policy, sinks that cannot be built or refuse writes); P the model's JSON reader
+//! application's TOML, no policy, sinks that cannot be built or refuse writes); Z several sinks on ONE file
+//! (separate mutexes: no common lock), many threads, long rows; P the model's JSON reader
 //! against `serde_json::from_str`.  Sequential results are compared with the model textually, concurrent
 //! ones as sorted records.
 //! Oracle (independent of the model): the file is parsed back (serde_json per line / comma split), one intact
@@ -1774,6 +1775,96 @@ fn classify_build_error(msg: &str) -> &'static str {
 }
 
 // ---------------------------------------------------------------------------------------------------
+// case kind Z: several sinks on ONE file — two members of a Combined policy with the same filename, or two
+// `CompassApp::run` calls at the same time, each `build()`ing its own sink: every sink has its own mutex, so
+// nothing in the process orders their writes; what keeps records whole is that a record reaches the file in one
+// `write` call on a handle opened in append mode
+
+fn case_z(ctx: &mut Ctx, idx: usize, fmt: &FmtSpec, handles: &[Vec<Vec<Value>>]) {
+    let path = file_path(idx);
+    let _ = std::fs::create_dir_all(DIR);
+    let _ = std::fs::remove_file(&path);
+    let mut line = format!("Z {} {}", fmt.enc(), handles.len());
+    for h in handles {
+        line.push_str(&format!(" {}", h.len()));
+        for w in h {
+            line.push_str(&format!(" {}", w.len()));
+            for r in w {
+                line.push(' ');
+                line.push_str(&enc(r));
+            }
+        }
+    }
+    let real_fmt = fmt.build();
+    let sinks: Vec<ResponseSink> = handles
+        .iter()
+        .map(|_| ResponseOutputPolicy::File { filename: path.clone(), format: real_fmt.clone(), file_flush_rate: None }.build().expect("sink builds"))
+        .collect();
+    let opened = std::fs::read_to_string(&path).unwrap_or_default();
+    let n_threads: usize = handles.iter().map(|h| h.len()).sum();
+    let barrier = Barrier::new(n_threads.max(1));
+    std::thread::scope(|s| {
+        for (sink, h) in sinks.iter().zip(handles) {
+            for w in h {
+                let barrier = &barrier;
+                s.spawn(move || {
+                    barrier.wait();
+                    for r in w {
+                        let mut r = r.clone();
+                        let _ = sink.write_response(&mut r);
+                    }
+                });
+            }
+        }
+    });
+    drop(sinks);
+    let file = std::fs::read_to_string(&path).unwrap_or_default();
+    let _ = std::fs::remove_file(&path);
+    let all: Vec<&Value> = handles.iter().flatten().flatten().collect();
+    let prefix_ok = file.starts_with(&opened);
+    let rest = if prefix_ok { &file[opened.len()..] } else { "" };
+    let canonical = if prefix_ok { canonical_file(fmt, &opened, rest) } else { file.clone() };
+    ctx.count(&format!("Z/handles-{}", handles.len()));
+    ctx.count(&format!("Z/threads-{}", n_threads));
+    ctx.nontrivial(&format!("Z {} {} {} {}", fmt.shape(), handles.len(), n_threads, all.len()));
+    // ---- oracle: one intact record per response although the writers do not share a lock
+    if !prefix_ok {
+        ctx.fail(idx, "sink/file-prefix-changed", format!("{:?} -> {:?}", clip(&opened), clip(&file)));
+    } else {
+        let (records, terminated) = appended_records(fmt, rest);
+        let mut intact = terminated && records.len() == all.len();
+        if intact {
+            match fmt {
+                FmtSpec::Json(_) => {
+                    let mut got: Vec<String> = records.iter().map(|s| s.to_string()).collect();
+                    let mut want: Vec<String> = all.iter().map(|r| serde_json::to_string(r).unwrap_or_default()).collect();
+                    got.sort();
+                    want.sort();
+                    intact = got == want;
+                }
+                FmtSpec::Csv { cols, .. } => {
+                    let names = header_names(cols, &real_fmt.initial_file_contents().unwrap_or_default()).unwrap_or_default();
+                    let mut got: Vec<Vec<String>> = records.iter().filter_map(|r| csv_read(r).ok().and_then(|mut v| if v.len() == 1 { Some(v.remove(0)) } else { None })).collect();
+                    let mut want: Vec<Vec<String>> = all.iter().map(|r| reference_fields(cols, &names, r)).collect();
+                    got.sort();
+                    want.sort();
+                    intact = names.is_empty() || got == want;
+                }
+            }
+        }
+        if !intact {
+            let blank = records.iter().filter(|r| r.is_empty()).count();
+            ctx.fail(
+                idx,
+                "sink/aliased-handles-interleave",
+                format!("{} sinks on one file, {} responses: {} records, {} of them empty — a row and its line break were separated by another sink's write", handles.len(), all.len(), records.len(), blank),
+            );
+        }
+    }
+    ctx.emit(idx, line, format!("ok {}", hex(&canonical)));
+}
+
+// ---------------------------------------------------------------------------------------------------
 // case kind Y: a Combined policy from build to close
 
 struct MemberSpec {
@@ -2230,6 +2321,30 @@ pub fn run(ctx: &mut Ctx) -> &'static str {
         let resps: Vec<Value> = (0..n).map(|_| if poison && rng.chance(1, 2) { json!(7) } else { gen_response(&mut rng, false) }).collect();
         let close = rng.chance(1, 2);
         case_b(ctx, idx, mode, &spec, &fmt, rate, close, &resps);
+    }
+    // ---- several sinks on one file (no common lock): rows long enough that the writes overlap in time
+    for _ in 0..ctx.n(40, 300) {
+        let (idx, true) = begin!() else { continue };
+        let mut rng = Rng::for_case(ctx.seed, PROP, idx as u64);
+        let fmt = if rng.chance(1, 2) { FmtSpec::Json(true) } else { csv(&[("origin", p("request.origin_vertex")), ("blob", p("blob")), ("note", MapSpec::Optional(Box::new(p("note"))))], rng.chance(1, 2)) };
+        let k = 2 + rng.below(2);
+        let handles: Vec<Vec<Vec<Value>>> = (0..k)
+            .map(|_| {
+                (0..1 + rng.below(4))
+                    .map(|_| {
+                        (0..20 + rng.below(30))
+                            .map(|_| {
+                                let mut r = gen_response(&mut rng, false);
+                                let n = 200 + rng.below(3000);
+                                r["blob"] = json!("x".repeat(n));
+                                r
+                            })
+                            .collect()
+                    })
+                    .collect()
+            })
+            .collect();
+        case_z(ctx, idx, &fmt, &handles);
     }
     // ---- generated: Combined policies from build to close
     for _ in 0..ctx.n(250, 2500) {
